@@ -315,8 +315,12 @@ class Check:
     def tie(self, name, lines, impl_cmd, model_cmd, canon=None, jobs=None, nontrivial=None, cwd=None, env=None, prefix=None):
         """Run both sides on `lines`; returns list of (line, impl_out, model_out). `prefix` lines (state set-up,
         e.g. descriptors) are sent first to every process and their answers dropped."""
+        t0 = time.time()
         impl = run_lines(impl_cmd, lines, jobs=jobs, cwd=cwd, env=env, prefix=prefix, mem_limit=self.impl_mem_limit, timeout=self.impl_timeout)
+        t1 = time.time()
         model = run_lines(model_cmd, lines, jobs=jobs, prefix=prefix)
+        if os.environ.get("VERIF_TIMING"):
+            sys.stderr.write("tie %s: %d lines, %d bytes, impl %.1fs, model %.1fs\n" % (name, len(lines), sum(map(len, lines)), t1 - t0, time.time() - t1))
         res = []
         for l, a, b in zip(lines, impl, model):
             self.evaluations += 1
